@@ -295,6 +295,51 @@ def expectedFunction : List (String × String) :=
    ("LUMINOSITY", "luminosity"), ("DARKER_COLOR", "darker_color"), ("LIGHTER_COLOR", "lighter_color"),
    ("DISSOLVE", "dissolve")]
 
+/-- the `k` every `@non_separable` function is wrapped with, as modelled (`nonSepCMYK .s`) -/
+def expectedNonSeparableK : List (String × String) :=
+  [("hue", "s"), ("saturation", "s"), ("color", "s"), ("luminosity", "s"), ("darker_color", "s"),
+   ("lighter_color", "s")]
+
+/-- the numeric literals of every function of blend.py, as the model hard-codes them
+(`1e-09` = `eps`, `0.999999` = `c999999`, `0.3 / 0.59 / 0.11` in `lum`, the thresholds `0.5`, `0.25`,
+the soft-light polynomial `16, 12, 4`; `2`, `3`, `4` are axis numbers and slice bounds) -/
+def expectedNumericConstants : List (String × List String) :=
+  [("normal", []),
+   ("multiply", []),
+   ("screen", []),
+   ("overlay", []),
+   ("darken", []),
+   ("lighten", []),
+   ("color_dodge", ["0", "1e-09", "1", "1.0"]),
+   ("color_burn", ["0", "1e-09", "1", "1.0"]),
+   ("linear_dodge", ["1"]),
+   ("linear_burn", ["0", "1"]),
+   ("hard_light", ["0.5", "1", "2"]),
+   ("soft_light", ["0.25", "0.5", "1", "2", "4", "12", "16"]),
+   ("vivid_light", ["0.5", "1", "2"]),
+   ("linear_light", ["0.5", "1", "2"]),
+   ("pin_light", ["0.5", "1", "2"]),
+   ("difference", []),
+   ("exclusion", ["2"]),
+   ("subtract", ["0"]),
+   ("hard_mix", ["0.999999", "1"]),
+   ("divide", ["1e-09", "1"]),
+   ("non_separable", ["2", "3", "4"]),
+   ("_cmyk2rgb", ["1.0", "2", "3"]),
+   ("_rgb2cmy", ["0", "1e-09", "1", "1.0", "2", "3"]),
+   ("hue", []),
+   ("saturation", []),
+   ("color", []),
+   ("luminosity", []),
+   ("darker_color", ["2", "3"]),
+   ("lighter_color", ["2", "3"]),
+   ("dissolve", []),
+   ("_lum", ["0", "0.11", "0.3", "0.59", "1", "2", "3"]),
+   ("_set_lum", []),
+   ("_clip_color", ["0", "0.0", "1e-09", "1", "1.0", "2", "3"]),
+   ("_sat", ["2"]),
+   ("_set_sat", ["0", "1e-09", "2", "3"])]
+
 /-- a separable mode by the name of its Python function (`dissolve` = `normal`) -/
 def separable (sq : Rat → Rat) : String → Option (Rat → Rat → Rat)
   | "normal" => some normal | "dissolve" => some normal
